@@ -1055,7 +1055,72 @@ def _reclass(v: Violation) -> Violation:
 
 
 
+# --- the receiving end of the relay: IMAPClientProxy.run de-frames `{len}\n<payload>` and hands the command to the
+# parser; a literal's octet count must still fit after that (seeded/C19-5: the payload decoded as UTF-8 when it
+# happens to be valid UTF-8, so `{n}` counts characters that are fewer than the octets)
+PROXY_TEXTS = ["caf\u00e9", "\u65e5\u672c\u8a9e mail", "na\u00efve \u2603 snowman", "plain ascii", "\u00fc", "x\u20acy"]
+
+
+def proxy_strategy():
+    from hypothesis import strategies as st
+
+    item = st.tuples(st.sampled_from(["create", "search", "append", "status"]), st.integers(0, len(PROXY_TEXTS) - 1), st.sampled_from(["utf-8", "latin-1"]))
+    return st.fixed_dictionaries({"kind": st.just("proxy"), "rseed": st.integers(0, 2**16), "items": st.lists(item, min_size=1, max_size=4)})
+
+
+def execute_proxy(trace) -> CaseResult:
+    from ..driver import Hang, World, tagged_message
+
+    res = CaseResult()
+    viol = []
+    w = World(rseed=trace.get("rseed", 0))
+    sample = []
+
+    async def main():
+        await w.boot()
+        s = w.session("a")
+        await s.cmd(b"SELECT inbox")
+        for i, (what, ti, encn) in enumerate(trace["items"]):
+            text = PROXY_TEXTS[ti % len(PROXY_TEXTS)]
+            raw = text.encode(encn, "replace")
+            if what == "create":
+                line = b"CREATE {%d}\r\n%s" % (len(b"pb%d " % i + raw), b"pb%d " % i + raw)
+            elif what == "status":
+                line = b"STATUS {%d}\r\n%s (MESSAGES)" % (len(raw), raw)
+            elif what == "search":
+                line = b"SEARCH SUBJECT {%d}\r\n%s" % (len(raw), raw)
+            else:
+                msg = tagged_message(f"px{i}", body=None).replace(b"second line", raw)
+                line = b"APPEND inbox {%d}\r\n%s" % (len(msg), msg)
+            if not s.alive:
+                s = w.session("a%d" % i)
+                await s.cmd(b"SELECT inbox")
+            r = await s.cmd(line, limit=150)
+            sample.append({"c": line[:50].decode("latin-1"), "r": r.status})
+            if any(b > 127 for b in raw):
+                res.nontrivial = True
+            tail = bytes(r.raw[-160:])
+            # a well-formed command: NO is fine (no such mailbox), BAD about its syntax / literal is not
+            if r.status == "BAD" or r.status is None:
+                viol.append(Violation(ID, "C19.proxy.literal", f"the relayed command {line[:60]!r} (literal of {len(raw)} octets, {encn}) was answered {tail!r} by the user process", trace, "proxy:" + what))
+
+    try:
+        w.run(main())
+    except Hang as e:
+        res.blocked = "C06"
+        res.labels.append(f"hang:{str(e)[:30]}")
+    finally:
+        w.close()
+    res.labels.append("kind:proxy")
+    res.sample = sample
+    res.steps = len(sample)
+    res.violations = viol
+    return res
+
+
 def strategy(tier, shard, nshards):
+    if shard % 8 == 5:
+        return proxy_strategy()
     return G.trace(tier)
 
 
@@ -1093,6 +1158,8 @@ def _labels_c2s(trace, obs, facts, labels):
 
 
 def execute(trace) -> CaseResult:
+    if trace.get("kind") == "proxy":
+        return execute_proxy(trace)
     res = CaseResult()
     kind = trace.get("kind", "c2s")
     segs = trace.get("segs") or [{"m": "whole"}]
